@@ -31,7 +31,16 @@ var c38Gram = [5][][]string{
 		{"tcp", ":"}, {"a", ":", "/", "a"}, {"~", "a", ":", "/"}, {"/", "/", "a", "/"}},
 }
 
-var c38Random = []string{"a", "b", "host", "user", "@", ":", "/", "\\", "0", "8", "22", "65535", "65536", "00", "~", "~/",
+var c38SUser = [][]string{{}, {"a", "@"}}
+var c38SHost = []string{"docker", "DOCKER", "Docker", "ssh", "tcp", "unix"}
+var c38SPort = [][]string{{}, {":", "0"}, {":", "0", "0"}, {":", "8"}}
+var c38SPath = [][]string{{"/", "/", "a", "/", "a"}, {"/", "/"}, {"/", "a"}, {"~"}, {"8", ":", "a"}, {"a"}, {"tcp", ":", "a", ":", "8"}}
+var c38CaseProto = []string{"tcp", "TCP", "Tcp", "tcp4", "TCP4", "Tcp4", "tcp6", "unix", "UNIX", "Unix", "npipe", "NPIPE", "Npipe"}
+var c38CaseAddr = [][]string{{"a"}, {"/", "a"}, {"~", "/", "a"}, {"~", "a", "/", "a"}, {"a", ":", "/", "a"}, {"a", ":", "8"}, {}}
+var c38CaseHead = [][]string{{}, {"a", ":"}, {"a", "@", "a", ":"}, {"a", ":", "8", ":"}, {"docker://", "a", ":"}, {"DOCKER://", "a", ":"},
+	{"Docker://", "a", "@", "a", ":"}, {"DOCKER://", "a", "/"}, {"Docker://", "a", "/"}}
+
+var c38Random = []string{"docker", "docker:0:", "Docker:", "ssh", "UNIX", "Unix", "TCP", "Npipe", "a", "b", "host", "user", "@", ":", "/", "\\", "0", "8", "22", "65535", "65536", "00", "~", "~/",
 	"C", "c:/", "C:\\", "tcp", "tcp4", "tcp6", "unix", "npipe", "localhost", "[::1]", ".", "..", "-", "-o", "=", " ", "%",
 	"docker://", "DOCKER://", "Docker://", "ssh://", "#", "?", "x.sock", "\\\\.\\pipe\\p"}
 
@@ -195,6 +204,40 @@ func runC38(c *vlib.Ctx) error {
 		}
 	}
 	c.SetExtra("grammar_cases", n-nflat)
+	// 2b. the case domain (UrlText.tla CHead x CProto x CAddr): protocol / scheme tokens in lower, UPPER and Mixed case
+	ncase := n
+	for _, kind := range []string{"sync", "fwd"} {
+		for a := range c38CaseHead {
+			for b := range c38CaseProto {
+				for d := range c38CaseAddr {
+					var ts []string
+					ts = append(ts, c38CaseHead[a]...)
+					ts = append(ts, c38CaseProto[b], ":")
+					ts = append(ts, c38CaseAddr[d]...)
+					emit(c38In("case", kind, false, ts, []int{a + 1, b + 1, d + 1}, n%2 == 0))
+				}
+			}
+		}
+	}
+	// 2c. the scheme-word domain (UrlText.tla SUser x SHost x SPort x SPath)
+	for _, kind := range []string{"sync", "fwd"} {
+		for a := range c38SUser {
+			for b := range c38SHost {
+				for p := range c38SPort {
+					for d := range c38SPath {
+						var ts []string
+						ts = append(ts, c38SUser[a]...)
+						ts = append(ts, c38SHost[b])
+						ts = append(ts, c38SPort[p]...)
+						ts = append(ts, ":")
+						ts = append(ts, c38SPath[d]...)
+						emit(c38In("scheme", kind, false, ts, []int{a + 1, b + 1, p + 1, d + 1}, n%2 == 0))
+					}
+				}
+			}
+		}
+	}
+	c.SetExtra("case_cases", n-ncase)
 	c.SetExhaustive(true)
 	// 3. random richer strings beyond the bound
 	for i := 0; i < nrand; i++ {
